@@ -56,7 +56,8 @@ CHECKS = {
    technique="CrossHair (z3-backed symbolic execution) of the real Fusion.add_einsum: inductive step from an arbitrary invariant-satisfying state",
    text="One add_einsum from any open-block state satisfying the representation invariant either extends the block only when config, temporal "
         "prefix and component-disjointness allow, or opens a new block, and re-establishes the invariant - covering histories of any length; "
-        "counterexamples are replayed through real YAML -> Program/Hardware/Fusion.",
+        "counterexamples are replayed through real YAML -> Program/Hardware/Fusion. A second harness uses the real component classes "
+        "(which kinds count as functional), and the metrics['blocks'] literal of emitted dumps is compared with the property evaluated on the raw YAML.",
    note="Trusted base: CrossHair 0.0.110 + z3; stub Program/Hardware exposing only the methods add_einsum calls; 2 components, 2 configs, "
         "2 (quick) / 3 (thorough) loop ranks. 'Confirmed over all paths' is the only passing verdict."),
  "C15": dict(engine="E5", cat="other", ref="§3 E5, §6 C15, §8",
